@@ -240,4 +240,88 @@ theorem drive_spec (T : Table) (c : Cfg) (cap : Nat) (hcap : 0 < cap) (fuel : Na
               simp only [drive, hs, hv, hy]
               rw [this]; simp [flow]
 
+/-- The driver only takes steps of the LTS: its result is reachable by a run. -/
+theorem drive_is_run (T : Table) (c : Cfg) (cap : Nat) (fuel : Nat) (s : CSys) (ls : List Label) :
+    ∃ cl, CSys.run T c cap s cl = some (drive T c cap fuel s ls) := by
+  induction fuel generalizing s ls with
+  | zero => exact ⟨[], rfl⟩
+  | succ n ih =>
+    simp only [drive]
+    split
+    · rename_i s' h
+      obtain ⟨cl, hcl⟩ := ih s' ls
+      exact ⟨.send :: cl, by simp [CSys.run, h, hcl]⟩
+    · split
+      · rename_i s' h
+        obtain ⟨cl, hcl⟩ := ih s' ls
+        exact ⟨.recv :: cl, by simp [CSys.run, h, hcl]⟩
+      · split
+        · exact ⟨[], rfl⟩
+        · rename_i l rest
+          split
+          · rename_i s' h
+            obtain ⟨cl, hcl⟩ := ih s' rest
+            exact ⟨.sys l :: cl, by simp [CSys.run, h, hcl]⟩
+          · exact ⟨[], rfl⟩
+
+/-! ### the script of a finite input -/
+
+theorem sys_run_cons_inv {T : Table} {c : Cfg} {s s2 : Sys} {l : Label} {ls : List Label} {out : List Seq}
+    (h : Sys.run T c s (l :: ls) = some (s2, out)) :
+    ∃ s1 o1 o2, Sys.step T c s l = some (s1, o1) ∧ Sys.run T c s1 ls = some (s2, o2) ∧ out = o1 ++ o2 := by
+  simp only [Sys.run] at h
+  split at h
+  · cases h
+  · rename_i sa oa hs
+    split at h
+    · cases h
+    · rename_i sb ob hr
+      simp only [Option.some.injEq, Prod.mk.injEq] at h
+      obtain ⟨rfl, rfl⟩ := h
+      exact ⟨sa, oa, ob, hs, hr, rfl⟩
+
+theorem script_length (rs : List Nat) : (script rs).length = 2 * rs.length + 2 := by
+  induction rs with
+  | nil => rfl
+  | cons r rs ih => simp only [script, List.length_cons, ih]; omega
+
+/-- Any table: if the atomic LTS can run the script at all, it ends in `done`. -/
+theorem script_done (T : Table) (c : Cfg) (rs : List Nat) (s s1 : Sys) (out : List Seq)
+    (h : Sys.run T c s (script rs) = some (s1, out)) : s1.pc = .done := by
+  induction rs generalizing s out with
+  | nil =>
+    obtain ⟨sa, oa, ob, _, hr, _⟩ := sys_run_cons_inv (l := .enterRead) (ls := [.readEnd]) h
+    obtain ⟨sb, _, _, hs, hr2, _⟩ := sys_run_cons_inv hr
+    simp only [Sys.run, Option.some.injEq, Prod.mk.injEq] at hr2
+    rw [← hr2.1]
+    simp only [Sys.step] at hs
+    split at hs
+    · simp only [finishing, Option.some.injEq, Prod.mk.injEq] at hs
+      rw [← hs.1]
+    · cases hs
+  | cons r rs ih =>
+    obtain ⟨sa, oa, ob, _, hr, _⟩ := sys_run_cons_inv (l := .enterRead) (ls := .read r :: script rs) h
+    obtain ⟨sb, _, oc, _, hr2, _⟩ := sys_run_cons_inv hr
+    exact ih sb oc hr2
+
+/-- The table and callback as they are: from any state of the loop at the `select` with no Close()
+    pending, the script of any finite input runs to the end (no rune stops the loop, the end of the
+    input does). -/
+theorem script_runs (rs : List Nat) (s : Sys) (hinv : SInv s) (hpc : s.pc = .atSelect) (hcl : s.closeReq = false) :
+    ∃ s1 out, Sys.run handTable Cfg.fixed s (script rs) = some (s1, out) ∧ s1.pc = .done := by
+  induction rs generalizing s with
+  | nil => exact ⟨_, _, by simp [script, Sys.run, Sys.step, hpc, hcl]; exact ⟨rfl, rfl⟩, rfl⟩
+  | cons r rs ih =>
+    have hi := (hinv (by rw [hpc]; decide)).1
+    have hstop : (VaxisModel.Model.Parser.step handTable s.ps (.rune r)).stop = false := by
+      have := (VaxisModel.Lemmas.ParserAbs.hand_inv_step s.ps hi (.rune r)).2.2
+      simpa [pstep, VaxisModel.Lemmas.ParserAbs.isEof] using this
+    have hrun2 : Sys.run handTable Cfg.fixed s [.enterRead, .read r] =
+        some ({ s.outdate with ps := (pstep s.ps (.rune r)).st, pc := .atSelect, armed := startsTimer handTable r },
+              (pstep s.ps (.rune r)).out) := by
+      simp [Sys.run, Sys.step, hpc, hcl, hstop, pstep, Sys.outdate]
+    have hinv2 := (run_SInv _ s _ _ hinv hrun2).1
+    obtain ⟨s3, o3, hr3, hd⟩ := ih _ hinv2 rfl (by simp [Sys.outdate, hcl])
+    exact ⟨s3, _ ++ o3, sys_run_append handTable Cfg.fixed [.enterRead, .read r] (script rs) _ _ _ _ _ hrun2 hr3, hd⟩
+
 end VaxisModel.Lemmas.ParserRunChan
